@@ -164,6 +164,14 @@ func accKey(acc []bool) string {
 	return fmt.Sprint(s)
 }
 
+// argsOfPoint: points 0..2 are {x: p, s: "v<p>", l: [p, 9]}; point 3 is the empty argument map.
+func argsOfPoint(p int) *args.Args {
+	if p == 3 {
+		return args.New()
+	}
+	return concreteArgs(p)
+}
+
 var policyCatalogue = map[string][]string{
 	"[]":      {`["==", ".x", 7]`, `["<", ".x", 0]`, `["and", [[">", ".x", 1], ["<", ".x", 1]]]`, `["like", ".s", "w*"]`, `["any", ".l", ["==", ".", 5]]`},
 	"[0]":     {`["==", ".x", 0]`, `["<", ".x", 1]`, `["not", [">", ".x", 0]]`, `["like", ".s", "*0"]`, `["any", ".l", ["==", ".", 0]]`, `["<=", ".x", 0]`},
@@ -172,7 +180,8 @@ var policyCatalogue = map[string][]string{
 	"[0 1]":   {`["<", ".x", 2]`, `["<=", ".x", 1]`, `["not", ["==", ".x", 2]]`, `["or", [["==", ".x", 0], ["==", ".x", 1]]]`, `["any", ".l", ["<", ".", 2]]`},
 	"[0 2]":   {`["not", ["==", ".x", 1]]`, `["or", [["==", ".x", 0], ["==", ".x", 2]]]`, `["not", ["like", ".s", "*1"]]`},
 	"[1 2]":   {`[">", ".x", 0]`, `[">=", ".x", 1]`, `["all", ".l", [">", ".", 0]]`, `["not", ["==", ".x", 0]]`},
-	"[0 1 2]": {`[">=", ".x", 0]`, `["<=", ".x", 2]`, `["like", ".s", "v*"]`, `["all", ".l", [">=", ".", 0]]`, `["or", []]`, `["and", []]`, `["any", ".l", ["==", ".", 9]]`, `["==", ".y?", 3]`},
+	"[0 1 2]":   {`[">=", ".x", 0]`, `["<=", ".x", 2]`, `["like", ".s", "v*"]`, `["all", ".l", [">=", ".", 0]]`, `["any", ".l", ["==", ".", 9]]`, `["not", ["==", ".x", 7]]`},
+	"[0 1 2 3]": {`["==", ".y?", 3]`, `["and", []]`, `["like", ".y?", "*"]`, `["and", [["==", ".y?", 3], [">", ".z?", 0]]]`},
 }
 
 func init() {
@@ -201,8 +210,8 @@ func catalogueSelfCheck() []string {
 				continue
 			}
 			var got []int
-			for p := 0; p < 3; p++ {
-				nd, err := concreteArgs(p).ToIPLD()
+			for p := 0; p < 4; p++ {
+				nd, err := argsOfPoint(p).ToIPLD()
 				if err != nil {
 					bad = append(bad, fmt.Sprintf("args %d: %v", p, err))
 					continue
@@ -212,7 +221,7 @@ func catalogueSelfCheck() []string {
 				}
 			}
 			if fmt.Sprint(got) != key {
-				bad = append(bad, fmt.Sprintf("statement %s accepts %v on points 0..2, catalogue says %s", st, got, key))
+				bad = append(bad, fmt.Sprintf("statement %s accepts %v on points 0..3, catalogue says %s", st, got, key))
 			}
 		}
 	}
@@ -394,11 +403,15 @@ func (w *world) validateReal(c *chainCase, variant int) (allowed bool, stage str
 	if c.Inv.Irr&1 != 0 {
 		opts = append(opts, invocation.WithMeta("note", "irrelevant"), invocation.WithNonce([]byte("0123456789abcdef")))
 	}
-	if c.Inv.Irr&2 != 0 {
+	switch c.Inv.Irr {
+	case 1:
+		opts = append(opts, invocation.WithInvokedAtIn(-48*time.Hour))
+	case 2:
 		cc := missingCid(99)
 		opts = append(opts, invocation.WithCause(&cc), invocation.WithoutInvokedAt())
-	} else if c.Inv.Irr&1 != 0 {
-		opts = append(opts, invocation.WithInvokedAtIn(-48*time.Hour))
+	case 3:
+		cc := missingCid(98)
+		opts = append(opts, invocation.WithCause(&cc), invocation.WithInvokedAtIn(48*time.Hour))
 	}
 	inv, err := invocation.New(iss.id, sub, cmd, prf, opts...)
 	if err != nil {
@@ -427,6 +440,10 @@ func (w *world) validateReal(c *chainCase, variant int) (allowed bool, stage str
 	case "id":
 		verr = inv.ExecutionAllowedWithArgsHook(loader, func(a args.ReadOnly) (*args.Args, error) {
 			return a.WriteableClone(), nil
+		})
+	case "empty":
+		verr = inv.ExecutionAllowedWithArgsHook(loader, func(a args.ReadOnly) (*args.Args, error) {
+			return args.New(), nil
 		})
 	case "c0", "c1", "c2":
 		k := int(c.Inv.Hook[1] - '0')
@@ -656,10 +673,11 @@ func init() {
 				// link i (from root) delegates holders[i] -> holders[i+1] with command cmds[i]
 				pol := [][]bool{}
 				for k := rng.Intn(3); k > 0; k-- {
-					set := make([]bool, 3)
+					set := make([]bool, 4)
 					for p := 0; p < 3; p++ {
 						set[p] = p == arg || rng.Intn(2) == 0
 					}
+					set[3] = set[0] && set[1] && set[2] && rng.Intn(2) == 0
 					pol = append(pol, set)
 				}
 				links[ln-1-i] = absLink{Iss: holders[i], Aud: holders[i+1], Sub: sub, Cmd: cmds[i], Pol: pol, Nbf: -1, Exp: -1}
@@ -678,7 +696,7 @@ func init() {
 				inv.Exp = 4
 			}
 			if rng.Intn(5) == 0 {
-				inv.Hook = []string{"id", "c0", "c1", "c2"}[rng.Intn(4)]
+				inv.Hook = []string{"id", "c0", "c1", "c2", "empty"}[rng.Intn(5)]
 			}
 			// deviations
 			for d := rng.Intn(3); d > 0 && ln > 0; d-- {
@@ -693,7 +711,7 @@ func init() {
 				case 3:
 					links[i].Cmd = randCmd(3)
 				case 4:
-					bad := make([]bool, 3)
+					bad := make([]bool, 4)
 					bad[(arg+1)%3] = true
 					links[i].Pol = append(links[i].Pol, bad)
 				case 5:
